@@ -1,0 +1,8 @@
+//go:build !verif
+
+package util
+
+// verifFileOp is a no-op unless built with the "verif" build tag (verification harness seam).
+func verifFileOp(op string, path string, value int) (handled bool, v int, err error) {
+	return false, 0, nil
+}
